@@ -1119,6 +1119,10 @@ func (fx *FnExec) tagOf(t types.Type) int {
 	}
 	if !fx.hashStated[id] {
 		fx.hashStated[id] = true
+		fx.tagsStated = append(fx.tagsStated, id)
+		for _, fn := range sortedKeys(fx.ifacePreds) {
+			fx.stateImplements(fn, fx.ifacePreds[fn], id, t)
+		}
 		if types.Comparable(t) {
 			fx.assumeGlobal(fmt.Sprintf("(hashable %d)", id))
 		} else {
@@ -1672,6 +1676,7 @@ func (fx *FnExec) execTypeAssert(x *ssa.TypeAssert) {
 	if _, isIface := x.AssertedType.Underlying().(*types.Interface); isIface {
 		fn := "implements_" + sanitize(types.TypeString(x.AssertedType, func(p *types.Package) string { return p.Name() }))
 		fx.declareFun(fn, []string{"Int"}, "Bool")
+		fx.noteIfacePred(fn, x.AssertedType)
 		ok = "(and (distinct (i.tag " + v + ") 0) (" + fn + " (i.tag " + v + ")))"
 		// asserting to an interface that the static type already satisfies
 		if types.AssignableTo(x.X.Type(), x.AssertedType) {
@@ -2046,4 +2051,35 @@ func (fx *FnExec) ghostVal(gh map[string]string, name string) (string, bool) {
 	v := fx.ghostEntry(name)
 	gh[name] = v
 	return v, true
+}
+
+// Whether a concrete type has the methods of an interface is a fact of the type system: for every
+// dynamic type the function at hand speaks about (its tag was stated) and every interface it asserts
+// to, the uninterpreted predicate implements_<I>(tag) is given its value.
+func (fx *FnExec) noteIfacePred(fn string, it types.Type) {
+	if fx.ifacePreds == nil {
+		fx.ifacePreds = map[string]types.Type{}
+	}
+	if _, ok := fx.ifacePreds[fn]; ok {
+		return
+	}
+	fx.ifacePreds[fn] = it
+	for _, id := range fx.tagsStated {
+		fx.stateImplements(fn, it, id, fx.W.tagTypes[id-1])
+	}
+}
+
+func (fx *FnExec) stateImplements(fn string, it types.Type, id int, t types.Type) {
+	iface, ok := it.Underlying().(*types.Interface)
+	if !ok {
+		return
+	}
+	if _, isIface := t.Underlying().(*types.Interface); isIface {
+		return
+	}
+	if types.Implements(t, iface) {
+		fx.assumeGlobal(fmt.Sprintf("(%s %d)", fn, id))
+	} else {
+		fx.assumeGlobal(fmt.Sprintf("(not (%s %d))", fn, id))
+	}
 }
